@@ -171,3 +171,28 @@ pub fn world_events<'a, I: Iterator<Item = &'a EntityAny>>(o: &mut Vec<u64>, mk:
     for e in ents { push_raw(o, e); }
     for (lo, hi) in hints { o.push(lo as u64); o.push(match hi { Some(h) => h as u64 + 1, None => 0 }); }
 }
+
+/// A hasher that records the 64-bit words it is fed (handles feed exactly one).
+#[derive(Default)]
+pub struct WordHasher { pub words: Vec<u64>, pub other: usize }
+
+impl std::hash::Hasher for WordHasher {
+    fn finish(&self) -> u64 { 0 }
+    fn write(&mut self, bytes: &[u8]) { self.other += bytes.len(); }
+    fn write_u64(&mut self, i: u64) { self.words.push(i); }
+}
+
+pub fn hash_word<T: std::hash::Hash>(x: &T) -> u64 {
+    let mut h = WordHasher::default();
+    x.hash(&mut h);
+    assert!(h.words.len() == 1 && h.other == 0, "harness: handle did not hash as one u64");
+    h.words[0]
+}
+
+/// Eq/Hash consistency as a HashSet sees it: a set holding `x` contains a copy of `x`.
+pub fn set_contains(x: EntityAny) -> bool {
+    let mut s = std::collections::HashSet::new();
+    s.insert(x);
+    let (k, v) = x.raw();
+    s.contains(&EntityAny::from_raw((k, v)).unwrap())
+}
